@@ -132,6 +132,7 @@ let run_cuts (now : z) (snap : n list option) (log : n list) (cuts : int list) :
 let run_json (ops : string list) : string =
   let st = ref { j_mem = []; j_dirty = false; j_disk = { jd_file = None; jd_tmp = None } } in
   let out = ref [] in
+  let fx = ref [] in
   List.iter (fun op ->
       let o = (match split_on ':' op with
           | ["s"; k; v] -> Some (JSet (bytes_of_hex k, bytes_of_hex v))
@@ -142,6 +143,11 @@ let run_json (ops : string list) : string =
           | _ -> None) in
       match o with
       | Some o ->
+        (* the durable effects of the flush this operation performs, as the model issues them *)
+        (match o with
+         | JFlush | JReopen when !st.j_dirty ->
+           fx := String.concat "." (List.map (function JWriteTmp _ -> "W" | JRename -> "R") (jflush_steps !st.j_mem)) :: !fx
+         | _ -> ());
         let (s', r) = jstep_op !st o in
         st := s';
         (match r with
@@ -149,7 +155,11 @@ let run_json (ops : string list) : string =
          | Some None -> out := "g:!" :: !out
          | None -> ())
       | None -> ()) ops;
-  String.concat "" (List.map (fun s -> s ^ " ") (List.rev !out)) ^ "trunc=0"
+  (* the harness destroys the store at the end of the case: one more flush if dirty *)
+  if !st.j_dirty then
+    fx := String.concat "." (List.map (function JWriteTmp _ -> "W" | JRename -> "R") (jflush_steps !st.j_mem)) :: !fx;
+  String.concat "" (List.map (fun s -> s ^ " ") (List.rev !out))
+  ^ "fx=" ^ (if !fx = [] then "-" else String.concat "," (List.rev !fx)) ^ " img=ok trunc=0"
 
 let handle (line : string) : string =
   match split_on ' ' line with
